@@ -121,7 +121,7 @@ def short(ev):
 
 
 def run_driver(args, out, stats):
-    drv = os.path.join(vlib.BUILD, "storedrv")
+    drv = os.path.join(vlib.BUILD_DIR, "storedrv")
     p = vlib.run([drv] + args + ["-universe", UNI, "-out", out, "-stats", stats, "-seed", str(vlib.seed())],
                  timeout=3600, check=False)
     if p.returncode != 0:
